@@ -64,6 +64,16 @@ DESC = {
     "C14_r4": ("hold_state_flag cleared in reset_state() (after the result code was flushed) instead of when the release is processed", "cat_is_hold / cat_hold_exit while the held command's result code is being emitted and afterwards"),
     "C15_r4": ("error_state: while(read) loop without the 'no byte available -> OK' exit (always BUSY)", "input running dry inside a malformed line: cat_service reports BUSY forever without doing anything"),
     "C18_r4": ("is_busy: CAT_STATE_HOLD counts as idle", "cat_is_busy during a hold: OK although the command's result code is still owed"),
+    "C01_r4": ("parse_command_args: the only_test reject at LF sets CAT_STATE_ERROR instead of ack_error (same edit as C20_r3, found again independently)", "write syntax on a test-only command directly followed by another line: one ERROR for two lines"),
+    "C03_r4": ("get_atcmd_buf_size: shared buffer split as buf_size - (buf_size >> 1): the spare byte of an odd buffer goes to the command half, which then overlaps the event half", "odd shared buf_size: memset / ack text of the command FSM reaches byte 0 of the event half"),
+    "C04_r4": ("validate_uint_range: parameter type uint64_t -> int64_t", "unsigned decimal or hex values in [2^63, 2^64): negative in the width check, truncated into the variable, OK"),
+    "C05_r4": ("parse_buffer_hexadecimal: write_size = (access == READ_WRITE) ? size : 0", "hex write to a WRITE_ONLY variable: bytes stored, but the variable write callback is told length 0"),
+    "C07_r4": ("format_buffer_hexadecimal: locals uint8_t -> char (sign extension into print_format_num's uint32_t)", "a hex buffer holding a byte >= 0x80: READ prints FFFFFF80..., WRITE rejects it"),
+    "C08_r4": ("parse_buffer_string end-of-argument: data[size] = 0 stored regardless of the access mode", "a WRITE naming a READ_ONLY string: the stored string is truncated at the length of the refused text"),
+    "C16_r4": ("cat_service: unlock() moved before the final 'event work pending -> BUSY' override, its failure kept in s", "unlock failing while an event is queued or in progress: BUSY instead of ERROR_MUTEX_UNLOCK (and shared state read after the unlock)"),
+    "C17_r4": ("cat_trigger_unsolicited_read / _test call push_unsolicited_cmd directly (no lock bracket)", "any second thread triggering while cat_service runs"),
+    "C19_r4": ("cmd_list_next_cmd skips disabled commands itself, the per-command check in print_cmd_list removed; the cursor still starts at index 0 unchecked", "a disabled FIRST command (or first group) - the request must come from a later command"),
+    "C20_r4": ("start_print_cmd_list calls reset_state() (which also clears cr_flag) instead of only resetting cmd_type", "a CRLF-terminated request answered with the command list: bare LF newlines"),
 }
 
 
